@@ -72,6 +72,10 @@ def _programs(tier):
     # everything is registered with to_context(), and the step returns an (empty) context assignment as well
     progs['call_and_empty_ret'] = {'steps': [{'reg': [['k', 0, 'fut', 'call'], ['c', 1, 'child', 'call']], 'ret': None, 'empty_tc': True}, {'reg': [], 'ret': None},
                                              {'reg': [['k2', 2, 'fut', 'call']], 'ret': None, 'empty_tc': True}, {'reg': [], 'ret': 'end'}]}
+    # the returned assignment is an instance of a subclass of ToContext (an application's own, the standard library's OrderedDict)
+    for tc in ('subclass', 'ordered'):
+        progs['tc_' + tc] = {'steps': [{'reg': [['k0', 0, 'fut', 'ret'], ['k1', 1, 'child', 'ret']], 'ret': None}, {'reg': [], 'ret': None},
+                                       {'reg': [['k2', 2, 'fut', 'ret']], 'ret': None}, {'reg': [], 'ret': 'end'}], 'tc_class': tc}
     progs['samekey'] = {'steps': [{'reg': [['k', 0, 'fut', 'call'], ['k', 1, 'fut', 'ret']], 'ret': None}, {'reg': [], 'ret': None}]}
     return progs
 
